@@ -462,11 +462,11 @@ def configs(tier, seed):
     k = 0
     for kind in KINDS:
         for n in ([2, 3, 5] if quick else [2, 3, 5, 30]):
-            for layout in (["1s", "30s"] if quick else ["1s", "30s", "far0"]):
+            for layout in (["1s", "30s"] if quick else ["1s", "30s", "far0"] if n < 30 else ["1s", "far0"]):
                 for i0 in range(len(OBS_SETS)):
                     k += 1
                     thrs = [1e-20] if kind == "gpb1" else [[1e-20, 0.05][(k + seed) % 2]] if quick else [1e-20, 0.05]
-                    pps = [PERCENTAGES[(k // 2) % 2]] if quick else PERCENTAGES
+                    pps = [PERCENTAGES[(k // 2) % 2]] if quick or n > 3 else PERCENTAGES
                     for thr in thrs:
                         for pp in pps:
                             depth = _depth(tier, n, "direct")
